@@ -87,6 +87,8 @@ def check_case(case):
     ref = [[float(libcall(fn, data[i].copy(), data[j].copy())) for j in range(len(data))] for i in range(len(data))]
     if not all(math.isfinite(v) for row in ref for v in row):
         return Outcome.discard("non_finite_metric_value")
+    if any(0 < abs(v) < 1e-300 for row in ref for v in row):
+        return Outcome.discard("subnormal_metric_value")
     It, Iq = case["I_train"], case["I_test"]
     cls = models.classes()[case["model"]]
     Y = np.array(case["Y"], dtype=int)
